@@ -156,10 +156,12 @@ static const ZSTD_DDict* ZSTD_DDictHashSet_getDDict(ZSTD_DDictHashSet* hashSet, 
     size_t idx = ZSTD_DDictHashSet_getIndex(hashSet, dictID);
     const size_t idxRangeMask = hashSet->ddictPtrTableSize - 1;
     DEBUGLOG(4, "Hashed index: for dictID: %u is %zu", dictID, idx);
+    if (dictID == 0) return NULL;   /* the frame does not name a dictionary : nothing to select */
     for (;;) {
-        size_t currDictID = ZSTD_getDictID_fromDDict(hashSet->ddictPtrTable[idx]);
-        if (currDictID == dictID || currDictID == 0) {
-            /* currDictID == 0 implies a NULL ddict entry */
+        const ZSTD_DDict* const curr = hashSet->ddictPtrTable[idx];
+        if (curr == NULL || ZSTD_getDictID_fromDDict(curr) == dictID) {
+            /* an empty slot ends the probe sequence; an entry whose own dictID is 0
+             * (raw content dictionary) is a regular entry and does not */
             break;
         } else {
             idx = (idx + 1) & idxRangeMask;    /* Goes to start of table when we reach the end */
